@@ -128,7 +128,7 @@ pub const T_C09: u8 = 9;
 pub const T_C10: u8 = 10;
 pub const T_C11: u8 = 11;
 
-fn tagged(mut r: Rep, tag: u8) -> Rep {
+pub fn tagged(mut r: Rep, tag: u8) -> Rep {
     r.tag = tag;
     r
 }
@@ -146,7 +146,7 @@ pub fn member(n: &Node, k: u8) -> Option<u8> {
 }
 
 /// `false` (and a kind error expected) when the payload is not an object
-fn want_map(n: &Node, loc: &Loc, exp: &mut Exp) -> bool {
+pub fn want_map(n: &Node, loc: &Loc, exp: &mut Exp) -> bool {
     if n.kind != K_MAP {
         exp.push(tagged(kind_err(n, loc, &[K_MAP]), T_C02));
         return false;
@@ -161,7 +161,7 @@ pub enum Miss {
 }
 
 /// A non-skipped field of type `T` read from key `k`.
-fn field<T: Model>(n: &Node, loc: &Loc, k: u8, miss: Miss, exp: &mut Exp) {
+pub fn field<T: Model>(n: &Node, loc: &Loc, k: u8, miss: Miss, exp: &mut Exp) {
     match member(n, k) {
         Some(kid) => T::expect(kid, &push_loc(loc, key(k)), exp),
         None => match miss {
@@ -173,7 +173,7 @@ fn field<T: Model>(n: &Node, loc: &Loc, k: u8, miss: Miss, exp: &mut Exp) {
 }
 
 /// A field with `try_from(u8) = f`: the conversion's failure is a report at the field.
-fn field_conv(n: &Node, loc: &Loc, k: u8, f: usize, exp: &mut Exp) {
+pub fn field_conv(n: &Node, loc: &Loc, k: u8, f: usize, exp: &mut Exp) {
     match member(n, k) {
         Some(kid) => {
             let before = exp.n;
@@ -194,7 +194,7 @@ pub enum Deny {
 }
 
 /// Members whose key is not an accepted key (and not the tag).
-fn unknown(n: &Node, loc: &Loc, accepted: &[u8], tagkey: u8, deny: Deny, exp: &mut Exp) {
+pub fn unknown(n: &Node, loc: &Loc, accepted: &[u8], tagkey: u8, deny: Deny, exp: &mut Exp) {
     if deny == Deny::No {
         return;
     }
@@ -223,21 +223,23 @@ fn unknown(n: &Node, loc: &Loc, accepted: &[u8], tagkey: u8, deny: Deny, exp: &m
     }
 }
 
-fn val<T: Model>(v: &T, n: &Node, k: u8) -> Option<bool> {
+pub fn val<T: Model>(v: &T, n: &Node, k: u8) -> Option<bool> {
     member(n, k).map(|kid| v.matches(kid))
 }
 
+#[macro_export]
 macro_rules! filled {
     ($v:expr, $n:expr, $k:expr) => {
-        match val(&$v, $n, $k) {
+        match $crate::catalogue::val(&$v, $n, $k) {
             Some(ok) => assert!(ok, "C07: a field is not filled from the entry under its effective key"),
             None => assert!(false, "C08: success although a field without default is absent"),
         }
     };
 }
+#[macro_export]
 macro_rules! filled_or {
     ($v:expr, $n:expr, $k:expr, $d:expr) => {
-        match val(&$v, $n, $k) {
+        match $crate::catalogue::val(&$v, $n, $k) {
             Some(ok) => assert!(ok, "C07: a field is not filled from the entry under its effective key"),
             None => assert!($v == $d, "C08: an absent field with a default does not take its default"),
         }
@@ -701,7 +703,7 @@ pub enum E1 {
 }
 /// common prelude of tagged enums: returns the id of the tag string, or 255 when a
 /// report has been pushed
-fn tag_of(n: &Node, loc: &Loc, tagkey: u8, exp: &mut Exp) -> u8 {
+pub fn tag_of(n: &Node, loc: &Loc, tagkey: u8, exp: &mut Exp) -> u8 {
     if n.kind != K_MAP {
         exp.push(tagged(kind_err(n, loc, &[K_MAP]), T_C02));
         return 255;
@@ -723,7 +725,7 @@ fn tag_of(n: &Node, loc: &Loc, tagkey: u8, exp: &mut Exp) -> u8 {
     }
 }
 /// like `member` but never returns the (first) tag member
-fn member_not_tag(n: &Node, k: u8, tagkey: u8) -> Option<u8> {
+pub fn member_not_tag(n: &Node, k: u8, tagkey: u8) -> Option<u8> {
     if k == tagkey {
         // a field sharing the tag's key can only be filled from a *second* member with that key
         let mut j = 0;
@@ -961,5 +963,51 @@ impl Cat for N1 {
         let n = crate::vsrc::node(node);
         filled!(self.inner, &n, 0);
         filled!(self.l, &n, 1);
+    }
+}
+
+// ================================================================== E0
+// the smallest internally tagged enum (cheap two-run harnesses: C15)
+pub const E0_TAB: [&str; 4] = ["t", "A", "B", "x"];
+#[derive(Deserr, Debug, PartialEq)]
+#[deserr(tag = "t")]
+pub enum E0 {
+    A,
+    B { x: u8 },
+}
+impl Model for E0 {
+    fn expect(node: u8, loc: &Loc, exp: &mut Exp) {
+        let n = crate::vsrc::node(node);
+        let t = tag_of(&n, loc, 0, exp);
+        if t == 255 {
+            return;
+        }
+        match t {
+            1 => {}
+            2 => field::<u8>(&n, loc, 3, Miss::Report, exp),
+            _ => exp.push(tagged(unexp(loc), T_C10)),
+        }
+    }
+    fn matches(&self, node: u8) -> bool {
+        let n = crate::vsrc::node(node);
+        if n.kind != K_MAP {
+            return false;
+        }
+        let t = match member(&n, 0) {
+            Some(k) => crate::vsrc::node(k),
+            None => return false,
+        };
+        if t.kind != K_STR {
+            return false;
+        }
+        match self {
+            E0::A => t.s == 1,
+            E0::B { x } => t.s == 2 && val(x, &n, 3) == Some(true),
+        }
+    }
+}
+impl Cat for E0 {
+    fn check_value(&self, node: u8) {
+        assert!(self.matches(node), "C10: the variant chosen is not the one whose effective name equals the tag");
     }
 }
